@@ -404,7 +404,7 @@ def check_history(case, ctx):
             pool_paths = [p for _, p in world.pool]
             if not request_ok(req, pool_paths):
                 continue
-            if req[0] in ("ckd", "derive_path", "children", "gen_take", "concat") and world.node(req[1])[0].children:
+            if req[0] in ("ckd", "derive_path", "children", "gen_take", "concat") and getattr(world.node(req[1])[0], "children", None):
                 nontrivial = True
             want = norm(expected(world, req, pool_paths))
             st_, res = call(do_request, world, req)
@@ -487,7 +487,9 @@ def judge_threads(case, world, results, errors, pool_paths, ctx, sig):
         raise Violation(sig + "/root-key-altered", "root key changed during the concurrent run")
     # every child recorded on a shared node is the right child for its index
     for node, path in world.pool[: 1 + len(case["setup"])]:
-        for ch in list(node.children):
+        kids = getattr(node, "children", [])
+        kids = list(kids.values()) if isinstance(kids, dict) else list(kids)
+        for ch in kids:
             if len(path) < 60 and summary(ch)[:6] != ref_summary(world.rm, path + [ch.index], world.testnet)[:6]:
                 raise Violation(sig + "/recorded-child-wrong", "node %s holds a wrong child for index %d" % (R.fmt_path(path), ch.index))
 
